@@ -129,7 +129,8 @@ StepC06(b, k) ==
   IF k = 0 THEN <<Item(IdOf(b, 0, 1), "and_then", "closure", <<>>)>>
   ELSE <<Item(IdOf(b, k, 1), "and_then", "block", <<>>), Item(IdOf(b, k, 2), "map", "call", <<>>)>>
 FamC06(dummy) ==
-  UNION {{Run(P, pl, IF P.kind.spawn \/ P.kind.async THEN ItemIds(P, {"and_then"}) ELSE {}) :
+  UNION {{Run(P, pl, IF (P.kind.spawn /\ ~P.kind.async) \/ (P.kind.async /\ (Tier # "quick" \/ NB(P) <= 2))
+                     THEN ItemIds(P, {"and_then"}) ELSE {}) :
             pl \in FailPlans(ItemIds(P, {"and_then"}), IF Tier = "quick" THEN 1 ELSE 2)} :
          P \in {Build(kd, "res", pr, StepC06, NoName, ExprInit, "map") : kd \in TryKinds,
                   pr \in IF Tier = "quick" THEN {<<2, 2>>, <<1, 3>>, <<3, 1, 2>>, <<2, 3, 3>>} ELSE Profiles(3, 3)}}
